@@ -533,3 +533,202 @@ pub fn variation_list(encoded: &[u8]) -> Option<crate::app::attr::VariationList<
         _ => None,
     }
 }
+
+// ---------------------------------------------------------------------------------------
+// group 70 (file) free-format objects: the library's own writer and reader
+// ---------------------------------------------------------------------------------------
+
+/// field values of one g70 object (which fields a variation uses is listed at `file_object`)
+#[derive(Clone, Debug, Default)]
+pub struct FileObj {
+    pub var: u8,
+    pub a: u32,
+    pub b: u32,
+    pub c: u16,
+    pub d: u16,
+    /// nine permission bits in IEEE 1815 order: world x/w/r = bits 0..2, group = 3..5, owner = 6..8
+    pub perms: u16,
+    /// status (v4, v6), operational mode (v3) or file type (v7)
+    pub code: u16,
+    pub time: u64,
+    pub s1: String,
+    pub s2: String,
+    pub data: Vec<u8>,
+}
+
+pub struct FileObjOut {
+    /// Debug text of the object as constructed from the fields
+    pub original: String,
+    /// what the library's writer produced (None: the library has no production writer for it)
+    pub encoded: Option<Result<Vec<u8>, String>>,
+    /// Debug text of what the library's reader makes of `reference`
+    pub decoded: Result<String, String>,
+}
+
+fn file_status(code: u8) -> crate::app::FileStatus {
+    use crate::app::FileStatus::*;
+    match code {
+        0 => Success,
+        1 => PermissionDenied,
+        2 => InvalidMode,
+        3 => FileNotFound,
+        4 => FileLocked,
+        5 => TooManyOpen,
+        6 => InvalidHandle,
+        7 => WriteBlockSize,
+        8 => CommLost,
+        9 => CannotAbort,
+        16 => NotOpened,
+        17 => HandleExpired,
+        18 => BufferOverrun,
+        19 => Fatal,
+        20 => BlockSeq,
+        255 => Undefined,
+        x => Other(x),
+    }
+}
+
+/// v2: a = auth key, s1 = user, s2 = password; v3: time, perms, a = auth key, b = size, code = mode,
+/// c = max block, d = request id, s1 = name; v4: a = handle, b = size, c = max block, d = request
+/// id, code = status, s1 = text; v5: a = handle, b = block, data; v6: a = handle, b = block,
+/// code = status, s1 = text; v7: code = type, b = size, time, perms, d = request id, s1 = name;
+/// v8: s1
+pub fn file_object(p: &FileObj, reference: &[u8]) -> FileObjOut {
+    use crate::app::file::*;
+    use crate::app::{PermissionSet, Permissions, Timestamp};
+    let set = |k: u16| PermissionSet {
+        execute: (p.perms >> k) & 1 == 1,
+        write: (p.perms >> (k + 1)) & 1 == 1,
+        read: (p.perms >> (k + 2)) & 1 == 1,
+    };
+    let permissions = Permissions {
+        world: set(0),
+        group: set(3),
+        owner: set(6),
+    };
+    let time = Timestamp::new(p.time);
+    let mut buf = vec![0u8; 4096];
+    macro_rules! enc {
+        ($obj:expr) => {{
+            let mut cursor = scursor::WriteCursor::new(&mut buf);
+            match $obj.write(&mut cursor) {
+                Ok(()) => {
+                    let n = cursor.position();
+                    Some(Ok(buf[..n].to_vec()))
+                }
+                Err(e) => Some(Err(format!("{e:?}"))),
+            }
+        }};
+    }
+    macro_rules! dec {
+        ($t:ident) => {{
+            let mut c = scursor::ReadCursor::new(reference);
+            $t::read(&mut c)
+                .map(|x| format!("{x:?}"))
+                .map_err(|e| format!("{e:?}"))
+        }};
+    }
+    match p.var {
+        2 => {
+            let o = Group70Var2 {
+                auth_key: p.a,
+                user_name: &p.s1,
+                password: &p.s2,
+            };
+            FileObjOut { original: format!("{o:?}"), encoded: enc!(o), decoded: dec!(Group70Var2) }
+        }
+        3 => {
+            let o = Group70Var3 {
+                time_of_creation: time,
+                permissions,
+                auth_key: p.a,
+                file_size: p.b,
+                mode: crate::master::FileMode::new(p.code),
+                max_block_size: p.c,
+                request_id: p.d,
+                file_name: &p.s1,
+            };
+            FileObjOut { original: format!("{o:?}"), encoded: enc!(o), decoded: dec!(Group70Var3) }
+        }
+        4 => {
+            let o = Group70Var4 {
+                file_handle: p.a,
+                file_size: p.b,
+                max_block_size: p.c,
+                request_id: p.d,
+                status_code: file_status(p.code as u8),
+                text: &p.s1,
+            };
+            FileObjOut { original: format!("{o:?}"), encoded: enc!(o), decoded: dec!(Group70Var4) }
+        }
+        5 => {
+            let o = Group70Var5 {
+                file_handle: p.a,
+                block_number: p.b,
+                file_data: &p.data,
+            };
+            FileObjOut { original: format!("{o:?}"), encoded: enc!(o), decoded: dec!(Group70Var5) }
+        }
+        6 => {
+            let o = Group70Var6 {
+                file_handle: p.a,
+                block_number: p.b,
+                status_code: file_status(p.code as u8),
+                text: &p.s1,
+            };
+            FileObjOut { original: format!("{o:?}"), encoded: None, decoded: dec!(Group70Var6) }
+        }
+        7 => {
+            let o = Group70Var7 {
+                file_type: match p.code {
+                    0 => crate::app::FileType::Directory,
+                    1 => crate::app::FileType::File,
+                    x => crate::app::FileType::Other(x),
+                },
+                file_size: p.b,
+                time_of_creation: time,
+                permissions,
+                request_id: p.d,
+                file_name: &p.s1,
+            };
+            FileObjOut { original: format!("{o:?}"), encoded: enc!(o), decoded: dec!(Group70Var7) }
+        }
+        _ => {
+            let o = Group70Var8 {
+                file_specification: &p.s1,
+            };
+            FileObjOut { original: format!("{o:?}"), encoded: None, decoded: dec!(Group70Var8) }
+        }
+    }
+}
+
+/// a device-attribute value through the library's writer and back through its parser:
+/// (encoding, Debug text of the parsed value)
+pub fn attr_value_roundtrip(
+    v: &crate::app::attr::OwnedAttrValue,
+) -> (Result<Vec<u8>, String>, Result<String, String>) {
+    let mut buf = vec![0u8; 1024];
+    let mut cursor = scursor::WriteCursor::new(&mut buf);
+    let encoded = match v.write(&mut cursor) {
+        Ok(()) => {
+            let n = cursor.position();
+            Ok(buf[..n].to_vec())
+        }
+        Err(crate::app::attr::AttrWriteError::Cursor) => Err("Cursor".to_string()),
+        Err(crate::app::attr::AttrWriteError::BadAttribute(b)) => Err(format!("BadAttribute({b:?})")),
+    };
+    let decoded = match &encoded {
+        Ok(b) => {
+            let mut c = scursor::ReadCursor::new(b);
+            match crate::app::attr::AttrValue::parse(&mut c) {
+                Ok(x) => match x.to_owned() {
+                    Some(o) => Ok(format!("{o:?}")),
+                    None => Err("attribute list".to_string()),
+                },
+                Err(e) => Err(format!("{e:?}")),
+            }
+        }
+        Err(e) => Err(e.clone()),
+    };
+    (encoded, decoded)
+}
